@@ -312,6 +312,38 @@ func collectStorage(v reflect.Value, out *[]storageWitness, depth int) {
 	}
 }
 
+// frameWitnesses: the storage witnesses of the object behind a for a Set along path.
+// A path that goes INTO a slice of uint8 (reflection cannot tell []uint8 from []byte) addresses one of its
+// elements: writing that element in place is the operation itself, not a write into foreign storage.
+func frameWitnesses(a any, path []string) []storageWitness {
+	var wit []storageWitness
+	collectStorage(reflect.ValueOf(a), &wit, 0)
+	for k := 0; k < len(path); k++ {
+		if el, ok := NavNative(reflect.ValueOf(a), path[:k]); ok && el.Kind() == reflect.Slice &&
+			el.Type().Elem().Kind() == reflect.Uint8 && el.Cap() > 0 {
+			base := el.Slice(0, el.Cap()).Pointer()
+			kept := wit[:0]
+			for _, w := range wit {
+				if uintptr(unsafe.Pointer(unsafe.SliceData(w.view))) != base {
+					kept = append(kept, w)
+				}
+			}
+			wit = kept
+		}
+	}
+	return wit
+}
+
+// the first witness whose memory no longer holds what it held ("" when all do)
+func writtenWitness(wit []storageWitness) string {
+	for _, w := range wit {
+		if string(w.view) != w.was {
+			return "storage-written(" + hex.EncodeToString([]byte(w.was)) + "->" + hex.EncodeToString(w.view) + ")"
+		}
+	}
+	return ""
+}
+
 func init() {
 	setop := func(frame bool) opfn {
 		return func(ins inspector.Inspector, t reflect.Type, form string, args []string, value string) string {
@@ -321,22 +353,7 @@ func init() {
 			a, _ := Arg(t, form, value)
 			var wit []storageWitness
 			if frame {
-				collectStorage(reflect.ValueOf(a), &wit, 0)
-				// a path that goes INTO a slice of uint8 (reflection cannot tell []uint8 from []byte) addresses one of its
-				// elements: writing that element in place is the operation itself, not a write into foreign storage
-				for k := 0; k < len(path); k++ {
-					if el, ok := NavNative(reflect.ValueOf(a), path[:k]); ok && el.Kind() == reflect.Slice &&
-						el.Type().Elem().Kind() == reflect.Uint8 && el.Cap() > 0 {
-						base := el.Slice(0, el.Cap()).Pointer()
-						kept := wit[:0]
-						for _, w := range wit {
-							if uintptr(unsafe.Pointer(unsafe.SliceData(w.view))) != base {
-								kept = append(kept, w)
-							}
-						}
-						wit = kept
-					}
-				}
+				wit = frameWitnesses(a, path)
 			}
 			err := callSet(ins, a, path, buffered, src)
 			after := reflect.ValueOf(a)
@@ -347,10 +364,8 @@ func init() {
 				return "e=" + ErrName(err) + ";obj=" + dumpS(after)
 			}
 			before := Build(t, value)
-			for _, w := range wit {
-				if string(w.view) != w.was {
-					return "frame=0:storage-written(" + hex.EncodeToString([]byte(w.was)) + "->" + hex.EncodeToString(w.view) + ")"
-				}
+			if w := writtenWitness(wit); w != "" {
+				return "frame=0:" + w
 			}
 			if offPath(t, path, before, after) {
 				return "frame=1"
